@@ -12,6 +12,7 @@ mod p04;
 mod p05;
 mod p17;
 mod p18;
+mod p19;
 
 use ctx::{Ctx, Tier};
 use std::path::PathBuf;
@@ -80,6 +81,7 @@ fn main() {
         "C05" => p05::run(&mut c),
         "C17" => p17::run(&mut c),
         "C18" => p18::run(&mut c),
+        "C19" => p19::run(&mut c),
         _ => {
             eprintln!("unknown property {}", prop);
             std::process::exit(2)
